@@ -3,7 +3,7 @@ ID = "C18"
 LEAN_MODULES = ["GoaktVerif.Props.C18"]
 THEOREMS = ["GoaktVerif.C18." + t for t in [
     "lookupN_bump", "foldl_drainMsg", "inv_step", "inv_run", "inv_quiesce",
-    "overflow_facts", "C18_refuted", "C18_partial", "C18_once", "C18_invariant",
+    "guarded_of_traffic", "C18_quiescent", "C18_holds", "C18_once", "C18_invariant", "overflow_regression", "full_queue_inline",
     "count_reply_total", "count_reply_receiver",
     "publishAll_republishes", "restart_resets_count", "drop_when_down", "control_not_deadlettered",
 ]]
@@ -12,14 +12,15 @@ ORACLE_NEEDS_JUDGE = True
 TIMEOUT = 3000
 MANIFEST = {
     "level_text": "Kernel-checked inductive invariant of a model of the dead-letter path (handleReceivedErrorWithMessage, "
-                  "the failure branches of deliverRemoteTellMessage, enqueueCoalescedFailure/drainCoalescedFailures, the dead-letter "
-                  "actor's two mailboxes and Receive): for EVERY history of drop events (all four causes), drain-goroutine steps, "
-                  "dead-letter-actor turns and count requests — hence every interleaving of concurrent droppers — whose batch hand-offs "
-                  "find room in the fan-out queue, after quiescence the published dead letters are a permutation of exactly the dead "
-                  "letters owed (one per dropped user message, with its message, sender, receiver and reason), the total counter equals "
-                  "the number published and every per-receiver counter equals the number published for that receiver (C18_partial, "
-                  "C18_once); every count served at any point equals the number published then (count_reply_total/_receiver, "
-                  "C18_invariant). The unguarded statement is refuted (C18_refuted: a batch handed to a full queue gets no dead letters, C18-F1).",
+                  "the failure branches of deliverRemoteTellMessage, enqueueCoalescedFailure / drainCoalescedFailures / "
+                  "publishCoalescedFailure, the dead-letter actor's two mailboxes and Receive). C18_holds: for EVERY history of drop "
+                  "events (all four causes, fan-out queue of any capacity, hand-offs that find it full included), drain-goroutine steps, "
+                  "dead-letter-actor turns and count requests — hence every interleaving of concurrent droppers — after quiescence the "
+                  "published dead letters are a permutation of exactly the dead letters owed (one per dropped user message, with its "
+                  "message, sender, receiver and reason), the total counter equals the number published and every per-receiver counter "
+                  "equals the number published for that receiver (C18_quiescent, C18_once); every count served at any point equals the "
+                  "number published then (count_reply_total/_receiver, C18_invariant). Before /repo fix f8d2f6b the statement was refuted "
+                  "(C18-F1: a batch handed to a full queue got no dead letters); overflow_regression / full_queue_inline pin the repaired behaviour.",
     "level_note": "PARTIAL: the Go runtime pieces are modelled, not verified: mailboxes as FIFO lists, the events stream as a log, "
                   "goroutine interleavings as event orders; the system is assumed running (while stopping, dead letters are best-effort by "
                   "design: drop_when_down). Payload decoding and address parsing on the remote paths are inputs (C25, C26). "
@@ -108,6 +109,11 @@ def gen_case(rng, manual=None, overflow=False):
         qcap = rng.choice([1, 2, 3]) if overflow else rng.choice([4, 8])
         evs.append("mq %d" % qcap)
         pending = 0
+        if overflow:
+            # hand-offs beyond the queue capacity before anything is drained: the surplus must be dead-lettered inline
+            for _ in range(qcap + rng.randint(1, 2)):
+                evs.append("mbatch " + g.specs(1, 3))
+                pending += 1
         for _ in range(rng.randint(2, 7)):
             e = g.event(True)
             if e.startswith("mbatch"):
@@ -208,32 +214,9 @@ def oracle(case, impl, judge):
     return None
 
 
-def _overflowed_ids(case):
-    """ids of the good messages of mbatch hand-offs that arrive at a full manual queue"""
-    cap, pending, lost = None, 0, set()
-    for e in case.split(";")[1:]:
-        f = e.split()
-        if not f:
-            continue
-        if f[0] == "mq":
-            cap, pending = int(f[1]), 0
-        elif f[0] == "mdrain":
-            pending = 0
-        elif f[0] == "mbatch" and cap is not None:
-            if pending >= cap:
-                lost |= {s[1:] for s in f[1].split(",") if s[0] in "gn"}
-            else:
-                pending += 1
-    return lost
-
-
 def classify(case, impl, why):
-    why = why or ""
-    if why.startswith("bad missing dead letters:"):
-        missing = {t.split("/")[0] for t in why.split(": ", 1)[1].split(",")}
-        lost = _overflowed_ids(case)
-        if missing and missing <= lost:
-            return "C18-F1"
+    # C18-F1 (hand-off to a full fan-out queue dropped without dead letters) was fixed in /repo f8d2f6b:
+    # no open finding is left, every oracle failure is a VIOLATION
     return None
 
 
